@@ -427,13 +427,25 @@ def run(ctx):
                                     labels=rng.choice([cases.LABELS_SMALL, cases.LABELS_WORDS, ["only"]]))
         names = sorted(cspec["ann"].keys())
         gt = sorted(rng.sample(names, rng.randint(2, n))) if (n >= 3 and rng.random() < 0.4) else None
-        case = {"init": "reference", "continuum": cspec, "ground_truth": gt, "benign": False, "draws": 40}
+        if rng.random() < 0.3:
+            # sparse reference (about one unit per annotator: a count draw of 0 is likely) and a ground truth that leaves
+            # out some annotators, the alphabetically first one included
+            n = rng.randint(3, 5)
+            sizes = [0]
+            while sum(sizes) < 2:
+                sizes = [rng.choice([0, 1, 1, 1, 2]) for _ in range(n)]
+            cspec = cases.gen_continuum(rng, n_annot=n, sizes=sizes, min_total=2,
+                                        labels=cases.LABELS_SMALL, names=cases.pick_names(rng, n))
+            names = sorted(cspec["ann"].keys())
+            gt = sorted(rng.sample(names[1:], rng.randint(1, n - 1)))
+        case = {"init": "reference", "continuum": cspec, "ground_truth": gt, "benign": False, "draws": 60}
         if n >= 3 and rng.random() < 0.6:
             case["reinit_ground_truth"] = rng.choice([[], sorted(rng.sample(names, rng.randint(2, n)))])
         plan_.append(case)
+    plan_.sort(key=lambda c: bool(c.get("benign")))     # the cheap per-draw validity cases first, the long law runs last
     for case in plan_:
         if ctx.out_of_time() and not case.get("benign"):
-            break
+            continue
         case["np_seed"] = rng.randrange(2 ** 31)
         ctx.begin_case(case)
         ctx.observe("kind", f"{case['init']}/{'benign' if case['benign'] else 'hostile'}")
